@@ -426,8 +426,12 @@ def run_case(bench, case):
         s0 = len(sim.log)
         if op == "X":
             sim.x["S"] = v
+            roots = [e for e in sim.val if e[0] == "c" and net.sp(e[1]) == "S" and e not in sim.inp]
+            gone = set(roots) | sim.desc(roots)         # every computed value that (transitively) read S.x
             rec = {"k": "edit", "ln": ln, "mode": "xchange",
-                   "inputs": {sim.label(e): sim.val[e] for e in sim.inp}}
+                   "inputs": {sim.label(e): sim.val[e] for e in sim.inp},
+                   "gone": sorted(sim.label(e) if e[0] != "I" else "P%d[0]" % e[1] for e in gone)}
+            sim.discard(gone)
             D = ()
         else:
             if op == "A":
@@ -637,7 +641,7 @@ def run(res, tier, seed):
                 "ItemSpaces and the formula execution log are compared with an independent memoising evaluator; "
                 "non-trivial = some edit hit an element with held dependents, or an assigned value existed, or an "
                 "assignment was made; distinct = distinct case description")
-    deadline = res.t0 + res.budget_s * 0.9
+    deadline = res.t0 + res.budget_s * (0.8 if tier == "quick" else 0.85)
     tasks = []
     for row in plan(tier):
         n, variants = row[0], row[1]
